@@ -146,6 +146,8 @@ pub enum KsfArg {
     Identity,
     Argon2Default,
     Argon2 { m: u32, t: u32, p: u32 },
+    /// alg: 0 = Argon2d, 1 = Argon2i, 2 = Argon2id; v10: version 0x10 instead of 0x13
+    Argon2Alg { alg: u8, v10: bool, m: u32, t: u32, p: u32 },
 }
 
 #[derive(Clone, Copy, Debug, PartialEq, Eq, PartialOrd, Ord, Serialize, Deserialize)]
@@ -203,6 +205,11 @@ pub trait SuiteOps: Sync {
     /// `ServerSetup::new_with_key(rng, KeyPair::from_private_key(SimHsm(sk)))`
     fn server_setup_new_hsm(&self, rng: &mut SimRng, sk: &[u8]) -> R<Item>;
     fn setup_public_key(&self, setup: &Item) -> R<Vec<u8>>;
+
+    /// the stand-alone key-pair API: which = 0 PublicKey::deserialize, 1
+    /// PrivateKey::deserialize (+ public_key), 2 KeyPair::from_private_key_slice,
+    /// 3 the same with the external-key type; returns the re-serialized bytes
+    fn key_api(&self, which: u8, bytes: &[u8]) -> R<Vec<u8>>;
 
     fn client_reg_start(&self, rng: &mut SimRng, pw: &[u8]) -> R<(Item, Item)>;
     fn server_reg_start(&self, setup: &Item, req: &Item, cred_id: &[u8]) -> R<Item>;
@@ -371,6 +378,15 @@ impl KsfMake for argon2::Argon2<'static> {
             KsfArg::Argon2 { m, t, p } => Some(argon2::Argon2::new(
                 argon2::Algorithm::Argon2id,
                 argon2::Version::V0x13,
+                argon2::Params::new(*m, *t, *p, None).expect("harness: argon2 params"),
+            )),
+            KsfArg::Argon2Alg { alg, v10, m, t, p } => Some(argon2::Argon2::new(
+                match alg {
+                    0 => argon2::Algorithm::Argon2d,
+                    1 => argon2::Algorithm::Argon2i,
+                    _ => argon2::Algorithm::Argon2id,
+                },
+                if *v10 { argon2::Version::V0x10 } else { argon2::Version::V0x13 },
                 argon2::Params::new(*m, *t, *p, None).expect("harness: argon2 params"),
             )),
             other => panic!("harness: KsfArg {other:?} given to an Argon2 suite"),
@@ -627,6 +643,36 @@ macro_rules! suite {
                             de_json,
                         )?;
                         Ok(s.keypair().public().serialize().to_vec())
+                    }
+                })
+            }
+
+            fn key_api(&self, which: u8, bytes: &[u8]) -> R<Vec<u8>> {
+                guard(|| match which {
+                    0 => {
+                        let pk = opaque_ke::keypair::PublicKey::<$ke>::deserialize(bytes)
+                            .map_err(|e| op_err(ProtocolError::from(e)))?;
+                        Ok(pk.serialize().to_vec())
+                    }
+                    1 => {
+                        let sk = <opaque_ke::keypair::PrivateKey<$ke> as SecretKey<$ke>>::deserialize(bytes)
+                            .map_err(|e| op_err(ProtocolError::from(e)))?;
+                        let pk = sk.public_key().map_err(|e| op_err(ProtocolError::from(e)))?;
+                        let mut v = sk.serialize().to_vec();
+                        v.extend_from_slice(&pk.serialize());
+                        Ok(v)
+                    }
+                    2 => {
+                        let kp = KeyPair::<$ke>::from_private_key_slice(bytes).map_err(op_err)?;
+                        let mut v = kp.private().serialize().to_vec();
+                        v.extend_from_slice(&kp.public().serialize());
+                        Ok(v)
+                    }
+                    _ => {
+                        let kp = KeyPair::<$ke, SimHsm<$ke>>::from_private_key_slice(bytes).map_err(op_err)?;
+                        let mut v = kp.private().serialize().to_vec();
+                        v.extend_from_slice(&kp.public().serialize());
+                        Ok(v)
                     }
                 })
             }
